@@ -218,7 +218,7 @@ func TestCheck(t *testing.T) {
 				do(Case{Op: "div_row", A: uint64(s)}, 65536, s > 1)
 			}
 		}
-		cfg.SetRapid(16, 1)
+		cfg.SetRapid(64, 1)
 		rapid.Check(t, func(rt *rapid.T) {
 			c := rapid.Uint16().Draw(rt, "c")
 			if !do(Case{Op: "times_row", A: uint64(c)}, 2*65536, c > 1) {
@@ -265,7 +265,7 @@ func TestCheck(t *testing.T) {
 			}
 		}
 	}
-	cfg.SetRapid(cfg.N(300, 3000), 2)
+	cfg.SetRapid(cfg.N(3000, 30000), 2)
 	rapid.Check(t, func(rt *rapid.T) {
 		a := rapid.OneOf(rapid.SampledFrom(specials16), rapid.Uint16()).Draw(rt, "a")
 		var p uint32
@@ -301,7 +301,7 @@ func TestCheck(t *testing.T) {
 			do(Case{Op: "poly_div", A: a, B: b}, 1, a > 1 && b > 1)
 		}
 	}
-	cfg.SetRapid(cfg.N(3000, 200000), 3)
+	cfg.SetRapid(cfg.N(30000, 300000), 3)
 	gen64 := rapid.Custom(func(rt *rapid.T) uint64 {
 		switch rapid.IntRange(0, 3).Draw(rt, "k") {
 		case 0:
